@@ -61,6 +61,11 @@ def behaviours(server_json):
         ("200-json", dict(behaviour="ok", body=good, status=200), "success"),
         ("200-json-padded", dict(behaviour="ok", body=b"\n  " + pretty + b"\n\n", status=200), "success"),
         ("200-json-chunked", dict(behaviour="chunked", body=good, status=200), "success"),
+        # a 2xx reply is judged by its body: the media type the server labels it with is not part of the contract
+        ("200-json-graphql-response-type", dict(behaviour="ok", body=good, status=200, content_type="application/graphql-response+json; charset=utf-8"), "success"),
+        ("200-json-media-type-in-capitals", dict(behaviour="ok", body=good, status=200, content_type="Application/JSON"), "success"),
+        ("200-json-labelled-text-plain", dict(behaviour="ok", body=good, status=200, content_type="text/plain"), "success"),
+        ("201-json", dict(behaviour="ok", body=good, status=201), "success"),
         ("201-json", dict(behaviour="ok", body=good, status=201), "success"),
         ("200-json-text-plain", dict(behaviour="ok", body=good, status=200, content_type="text/plain"), "success"),
         ("200-json-bom", dict(behaviour="ok", body=b"\xef\xbb\xbf" + good, status=200), "either"),
@@ -146,6 +151,11 @@ def main(run):
                 auth = [None, "tok123", "tok with space"][(i + rep) % 3]
                 cells.append({"id": "c%d" % i, "behaviour": bname, "mock": mk, "expect": expect, "outmode": outmode, "flags": flags, "headers": hs, "auth": auth})
                 i += 1
+    # a bearer token that cannot be carried in a header (a trailing CR from a CRLF file, an embedded newline): whatever the
+    # command does, it does not send the request WITHOUT the credential and then report success
+    for ti, tok in enumerate(["tok123\r", "tok\nInjected: 1", "tok\x7f"]):
+        cells.append({"id": "a%d" % ti, "behaviour": "200-json", "mock": bs[0][1], "expect": "untransmittable-token", "outmode": "existing-file", "flags": (False, False),
+                      "headers": ["X-Ok: 1"], "auth": tok})
     for bi, bh in enumerate(BAD_HEADERS):
         cells.append({"id": "h%d" % bi, "behaviour": "200-json", "mock": bs[0][1], "expect": "refused-header", "outmode": "existing-file", "flags": (False, False),
                       "headers": ["X-Ok: 1", bh], "auth": None})
@@ -199,7 +209,20 @@ def main(run):
             continue
         problems = []
         exp = cell["expect"]
-        if exp == "refused-header":
+        if exp == "untransmittable-token":
+            run.count("untransmittable-tokens")
+            reqs = [l for l in log if "method" in l]
+            for r in reqs:
+                hd = {}
+                for k, v in r["headers"]:
+                    hd.setdefault(k.lower(), []).append(v)
+                if not hd.get("authorization"):
+                    problems.append("a request was sent without the bearer credential (token %r)" % cell["auth"])
+            if rc == 0 and not reqs:
+                problems.append("exit 0 without any request")
+            if rc != 0 and before is not None and after != before:
+                problems.append("existing output file changed although the command failed")
+        elif exp == "refused-header":
             run.count("refused-headers")
             if rc == 0:
                 problems.append("header %r accepted (exit 0)" % cell["headers"][-1])
